@@ -209,26 +209,10 @@ func newCluster(be string, nodes, clients []string) (*cluster, error) {
 			return nil, fmt.Errorf("provisioning %s failed: %v", x, err)
 		}
 		c.Disconnect()
-		cfg, err := repos.NewClientConfigRepository(first.Repo).GetConfig(id)
-		if err != nil {
+		if err := cl.shareIdentity(nodes[0], x, id, secret); err != nil {
 			cl.Close()
-			return nil, fmt.Errorf("provisioning %s: %v", x, err)
+			return nil, err
 		}
-		for _, n := range nodes[1:] {
-			cp := *cfg
-			enc, err := cl.srv[n].Keys.Encrypt(secret)
-			if err != nil {
-				cl.Close()
-				return nil, err
-			}
-			cp.SecretKeyEncrypted = enc
-			if err := repos.NewClientConfigRepository(cl.srv[n].Repo).CreateConfig(&cp); err != nil {
-				cl.Close()
-				return nil, fmt.Errorf("provisioning %s on %s: %v", x, n, err)
-			}
-		}
-		cl.creds[x] = cred{id, secret}
-		cl.byID[id] = x
 	}
 	// now hand every node the store under test: connstate.Store with a short lifetime over the
 	// shared wiring, a CrossNodePool over the same storage, and the node addresses (peer listeners)
@@ -308,6 +292,32 @@ func (cl *cluster) closeBy(n string, c *srvkit.Conn, x, why string) string {
 		return "unknown close cause " + why
 	}
 	return ""
+}
+
+// shareIdentity makes the identity that node `from` issued to client x known to every other node's
+// client-config repository and to the driver.
+func (cl *cluster) shareIdentity(from, x string, id int64, secret string) error {
+	cfg, err := repos.NewClientConfigRepository(cl.srv[from].Repo).GetConfig(id)
+	if err != nil {
+		return fmt.Errorf("provisioning %s: %v", x, err)
+	}
+	for _, n := range cl.nodes {
+		if n == from {
+			continue
+		}
+		cp := *cfg
+		enc, err := cl.srv[n].Keys.Encrypt(secret)
+		if err != nil {
+			return err
+		}
+		cp.SecretKeyEncrypted = enc
+		if err := repos.NewClientConfigRepository(cl.srv[n].Repo).CreateConfig(&cp); err != nil {
+			return fmt.Errorf("provisioning %s on %s: %v", x, n, err)
+		}
+	}
+	cl.creds[x] = cred{id, secret}
+	cl.byID[id] = x
+	return nil
 }
 
 func (cl *cluster) observe() fw.Event {
@@ -442,7 +452,18 @@ func drive(env *fw.Env, b fw.Behaviour) *fw.Trace {
 		return &fw.Trace{Status: fw.DriverError, Note: err.Error()}
 	}
 	nodes, clients := names(beh.Steps)
-	cl, err := newCluster(beh.Be, nodes, clients)
+	// clients whose identity is issued by a first-connection handshake of the behaviour are not provisioned
+	var known []string
+	for _, x := range clients {
+		issued := false
+		for _, s := range beh.Steps {
+			issued = issued || (s.A == "Auth" && s.X == x && s.W == "new")
+		}
+		if !issued {
+			known = append(known, x)
+		}
+	}
+	cl, err := newCluster(beh.Be, nodes, known)
 	if err != nil {
 		return &fw.Trace{Status: fw.DriverError, Note: "cluster: " + err.Error()}
 	}
@@ -475,9 +496,26 @@ func drive(env *fw.Env, b fw.Behaviour) *fw.Trace {
 			for m, k := range cl.conns {
 				open[m] = !k.Closed()
 			}
-			ok, err := c.Login(cl.creds[s.X].id, cl.creds[s.X].secret, "control")
-			if err != nil || !ok {
-				return &fw.Trace{Status: fw.DriverError, Note: fmt.Sprintf("step %d: handshake of %s on %s refused (ok=%v err=%v)", i, s.X, s.C, ok, err)}
+			if s.W == "new" {
+				// first-connection handshake: the request names no client, ServerAuthHandler allocates the
+				// identity and binds it to the connection.  The other nodes learn the identity afterwards
+				// (in production all nodes read one client-config repository).
+				if _, known := cl.creds[s.X]; known {
+					return &fw.Trace{Status: fw.DriverError, Note: "first-connection handshake of a client that already has an identity"}
+				}
+				id, secret, _, err := c.FirstConnect("control")
+				if err != nil || id == 0 {
+					return &fw.Trace{Status: fw.DriverError, Note: fmt.Sprintf("step %d: first-connection handshake on %s refused (id=%d err=%v)", i, s.C, id, err)}
+				}
+				if err := cl.shareIdentity(s.N, s.X, id, secret); err != nil {
+					return &fw.Trace{Status: fw.DriverError, Note: err.Error()}
+				}
+				ev["w"] = "new"
+			} else {
+				ok, err := c.Login(cl.creds[s.X].id, cl.creds[s.X].secret, "control")
+				if err != nil || !ok {
+					return &fw.Trace{Status: fw.DriverError, Note: fmt.Sprintf("step %d: handshake of %s on %s refused (ok=%v err=%v)", i, s.X, s.C, ok, err)}
+				}
 			}
 			evicted := []any{}
 			for m, k := range cl.conns {
@@ -589,7 +627,15 @@ var firstThree = `{"ptrShape", "condIdxDelete", "hbRefresh"}` // repaired by pat
 func mcJob(name, nodes string, nconns int, clients, shapes, fixsets string) fw.TLCJob {
 	return fw.TLCJob{Name: name, Module: "ConnState", Cfg: "ConnState_mc.cfg", Workers: 8, Timeout: 14 * time.Minute, Consts: map[string]string{
 		"NODES": nodes, "NCONNS": fmt.Sprint(nconns), "CLIENTS": clients, "SHAPES": shapes, "FIXSETS": fixsets,
-		"LOOKUPS": "FALSE", "WLOOKUP": "FALSE", "INVS": "Repaired LookupPure"}}
+		"LOOKUPS": "FALSE", "WLOOKUP": "FALSE", "KEEPCA": "FALSE", "USEREQ": "FALSE", "INVS": "Repaired LookupPure"}}
+}
+
+// altJob checks one of the other designs (KEEPCA: expiry derived from the first registration,
+// USEREQ: record filled from the request's client id): FindLive fails there only through its deviation
+func altJob(name, which string) fw.TLCJob {
+	j := mcJob(name, two, 2, `{"X"}`, `{"str"}`, "{"+allFixes+"}")
+	j.Consts[which], j.Consts["INVS"] = "TRUE", ""
+	return j
 }
 
 func genJob(name, nodes string, nconns int, clients string, maxClock, maxHist int, shapes, fixes, only string) fw.TLCJob {
@@ -639,6 +685,8 @@ func main() {
 					lkJob("mc:lookup:1x3", two, 3, both, false),
 					lkJob("mc:lookup:3nodes:1x2", three, 2, both, false),
 					lkJob("mc:writing-lookup:1x3", two, 3, "{"+allFixes+"}", true),
+					altJob("mc:keep-created-at:1x2", "KEEPCA"),
+					altJob("mc:request-id:1x2", "USEREQ"),
 				}
 			}
 			// quick: the string shape with the three repairs of C08-1..3 and with all four (the code
@@ -648,6 +696,8 @@ func main() {
 				mcJob("mc:1x3", two, 3, `{"X"}`, `{"str"}`, "{"+firstThree+", "+allFixes+"}"),
 				lkJob("mc:lookup:1x2", two, 2, "{"+allFixes+"}", false),
 				lkJob("mc:writing-lookup:1x2", two, 2, "{"+allFixes+"}", true),
+				altJob("mc:keep-created-at:1x2", "KEEPCA"),
+				altJob("mc:request-id:1x2", "USEREQ"),
 			}
 		},
 		// Histories are generated from the as-is model: event enabledness does not depend on the
@@ -666,6 +716,8 @@ func main() {
 					genJob("gen:close", two, 3, `{"X", "Y"}`, 3, 8, `{"str"}`, allFixes, "close"),
 					genJob("gen:lookup", three, 3, `{"X"}`, 2, 9, `{"str"}`, allFixes, "lookup"),
 					genJob("gen:reauth", two, 3, `{"X", "Y"}`, 3, 8, `{"str"}`, allFixes, "reauth"),
+					genJob("gen:long", two, 3, `{"X"}`, 3, 9, `{"str"}`, allFixes, "long"),
+					genJob("gen:first", three, 3, `{"X"}`, 2, 8, `{"str"}`, allFixes, "first"),
 					genJob("gen:asis", two, 3, `{"X", "Y"}`, 3, 7, `{"str"}`, "{}", "all"),
 					genJob("gen:asis-ptr", two, 3, `{"X"}`, 3, 8, `{"ptr"}`, "{}", "all"),
 					genJob("gen:3nodes", three, 3, `{"X"}`, 3, 7, `{"str"}`, "{}", "all"),
@@ -677,6 +729,8 @@ func main() {
 				genJob("gen:close", two, 3, `{"X"}`, 3, 8, `{"str"}`, allFixes, "close"),
 				genJob("gen:lookup", two, 2, `{"X"}`, 2, 8, `{"str"}`, allFixes, "lookup"),
 				genJob("gen:reauth", two, 3, `{"X"}`, 3, 7, `{"str"}`, allFixes, "reauth"),
+				genJob("gen:long", two, 2, `{"X"}`, 3, 8, `{"str"}`, allFixes, "long"),
+				genJob("gen:first", two, 2, `{"X"}`, 2, 7, `{"str"}`, allFixes, "first"),
 				genJob("gen:asis", two, 3, `{"X"}`, 3, 7, `{"str"}`, "{}", "all"),
 				genJob("gen:two", two, 2, `{"X", "Y"}`, 2, 7, `{"str"}`, "{}", "all"),
 			}
@@ -729,7 +783,7 @@ func main() {
 			}
 			return n >= 3
 		},
-		Rule: "one behaviour per transition (state, session event incl. undeliverable handshakes and closes by cause peer/cmd/sweep/kick) of the bounded ConnState state graph (shortest history to the state + the event), plus targeted covers: every model-predicted route to a deviation (gen:dev), undeliverable handshakes while connected elsewhere (gen:lost), closes of the last connection by command/kick/sweep (gen:close), two-step lookups overtaken by a handshake elsewhere / a cleanup and followed by a heartbeat (gen:lookup), successful re-handshakes on an authenticated connection that the store no longer names (gen:reauth); each replayed on the memory, Redis and tiered wirings; non-trivial = at least 3 session events",
+		Rule: "one behaviour per transition (state, session event incl. undeliverable handshakes and closes by cause peer/cmd/sweep/kick) of the bounded ConnState state graph (shortest history to the state + the event), plus targeted covers: every model-predicted route to a deviation (gen:dev), undeliverable handshakes while connected elsewhere (gen:lost), closes of the last connection by command/kick/sweep (gen:close), two-step lookups overtaken by a handshake elsewhere / a cleanup and followed by a heartbeat (gen:lookup), successful re-handshakes on an authenticated connection that the store no longer names (gen:reauth), sessions and re-handshakes on a connection older than one registration lifetime (gen:long), first-connection handshakes with a server-allocated identity (gen:first); each replayed on the memory, Redis and tiered wirings; non-trivial = at least 3 session events",
 		Assumptions: []string{
 			"nodes are SessionManager assemblies in one process sharing a store (srvkit); client identities are provisioned on every node's config repository",
 			"registration lifetime 500 ms = 2 model ticks of 300 ms; behaviours whose steps overran the margin are discarded as inconclusive",
